@@ -302,7 +302,9 @@ func GenScenario(seed int64, class string, thorough bool) *Scenario {
 	}
 	sc.Forks = rng.Intn(4)
 	sc.MaxLen = []int{1, 3, 6, 12}[rng.Intn(4)]
-	if thorough && rng.Intn(20) == 0 {
+	// inputs up to the protocol maximum (128 tipsets incl. the base): the lengths around the
+	// default proposal length (100) and the maximum are drawn preferentially in planInstance
+	if rng.Intn(30) == 0 || (thorough && rng.Intn(20) == 0) {
 		sc.MaxLen = 127
 	}
 	sc.StartSkew = make([]time.Duration, n)
@@ -357,6 +359,12 @@ func GenScenario(seed int64, class string, thorough bool) *Scenario {
 		for i := range sc.StartSkew {
 			sc.StartSkew[i] = 0
 		}
+	}
+	if sc.MaxLen == 127 {
+		// maximum-length inputs make every event (validation, chain keys, shadow tallies) about
+		// two orders of magnitude dearer: bound the execution; runs that hit the cap undecided are
+		// shorter observations (safety monitors) or counted as inconclusive executions (C06)
+		sc.MaxEvents = min(sc.MaxEvents/25, 15_000)
 	}
 	sc.Strategy = genStrategy(rng, sc)
 	if boundary {
